@@ -630,9 +630,13 @@ class MarkdownNormalizer(Renderer):
 
     def render_code_span(self, element: inline.CodeSpan) -> str:
         text = element.children
+        # The delimiter must be a backtick run longer than any backtick run inside the span,
+        # otherwise the span would end early when the output is read again.
+        longest_run = max((len(run) for run in re.findall(r"`+", text)), default=0)
+        delim = "`" * (longest_run + 1)
         if text and (text[0] == "`" or text[-1] == "`"):
-            return f"`` {text} ``"
-        return f"`{element.children}`"
+            return f"{delim} {text} {delim}"
+        return f"{delim}{text}{delim}"
 
     # --- GFM Renderer Methods ---
 
